@@ -495,6 +495,9 @@ class Completion:
             inference_state=self._inference_state,
             module_node=module_node,
             code_lines=code_lines,
+            # The code of a docstring belongs to the module it is written
+            # in; without a name, Name.parent() of its names would fail.
+            string_names=self._module_context.string_names,
         )
         return Completion(
             self._inference_state,
